@@ -2,7 +2,7 @@
    sel R idx k = the component addressed by entry k of an index array (jnp.take semantics: negative entries
    wrap, repetitions allowed).  fwf1 = what the rank-one constructor establishes (Lambda = g v v'). *)
 From mathcomp Require Import all_ssreflect all_algebra.
-From GT Require Import Tensor DetExec LogDom Obj Factor Measure Pdf Cond Moments ExpLog EvalLemmas Spec C01_proofs PdfLemmas C04_proofs C0809_proofs C12_proofs C14_proofs C07_proofs Extra_proofs.
+From GT Require Import Tensor DetExec LogDom Obj Factor Measure Pdf Cond Moments ExpLog EvalLemmas Spec C01_proofs PdfLemmas C04_proofs C0809_proofs C12_proofs C14_proofs C07_proofs Extra_proofs C12_cond.
 Import GRing.Theory Num.Theory.
 Local Open Scope ring_scope.
 
@@ -94,6 +94,18 @@ Theorem C12_slice_commutes_marginal_prior idx (c : cond LS) (p : measure LS) k (
   pdf_ok p -> is_pdf (ucls p) -> cond_ok c -> cDx c = uD p -> cR c = 1%N -> marg_pos c p -> idx_ok (uR p) idx -> (k < size idx)%N ->
   ueval (affine_marginal c (uslice idx p)) k y = ueval (affine_marginal c p) (sel (uR p) idx k) y.
 Proof. exact: slice_marginal_px. Qed.
+(* ... and with the conditional transformation (Bayes' rule), observed through the posterior densities p(x | y) *)
+Theorem C12_slice_commutes_conditional_conditional idx (c : cond LS) (p : measure LS) k (y x : vec F) :
+  pdf_ok p -> cond_ok c -> cDx c = uD p -> uR p = 1%N -> post_pos c p -> idx_ok (cR c) idx -> (k < size idx)%N ->
+  ueval (condition_on_x (affine_conditional (cslice idx c) p) [:: y]) (k * 1 + 0) x
+  = ueval (condition_on_x (affine_conditional c p) [:: y]) (sel (cR c) idx k * 1 + 0) x.
+Proof. exact: slice_conditional_cond. Qed.
+Theorem C12_slice_commutes_conditional_prior idx (c : cond LS) (p : measure LS) k (y x : vec F) :
+  pdf_ok p -> is_pdf (ucls p) -> cond_ok c -> cDx c = uD p -> cR c = 1%N -> post_pos c p -> idx_ok (uR p) idx ->
+  (k < size idx)%N ->
+  ueval (condition_on_x (affine_conditional c (uslice idx p)) [:: y]) (k * 1 + 0) x
+  = ueval (condition_on_x (affine_conditional c p) [:: y]) (sel (uR p) idx k * 1 + 0) x.
+Proof. exact: slice_conditional_px. Qed.
 End C12.
 Print Assumptions C12_slice_commutes_joint_conditional.
 Print Assumptions C12_slice_commutes_marginal_conditional.
@@ -110,3 +122,5 @@ Print Assumptions C12_slice_commutes_hadamard.
 Print Assumptions C12_slice_commutes_condition_on_x.
 Print Assumptions C12_update.
 Print Assumptions C12_slice_commutes_integrals.
+Print Assumptions C12_slice_commutes_conditional_conditional.
+Print Assumptions C12_slice_commutes_conditional_prior.
